@@ -1246,10 +1246,17 @@ class AttrProxyAccessor(WritableAccessor[T_co], PhysicalAccessor[T_co]):
                 f"{self._qualname} requires a single item, not an iterable"
             )
 
+        values = list(values)
         if any(isinstance(i, NewObject) for i in values):
             raise NotImplementedError("Cannot create new objects here")
 
-        assert isinstance(values, cabc.Iterable)
+        fixed_length = self.list_extra_args.get("fixed_length", 0)
+        if fixed_length and len(values) != fixed_length:
+            raise TypeError(
+                f"{self._qualname} requires exactly {fixed_length} items,"
+                f" got {len(values)}"
+            )
+
         self.__set_links(obj, values)  # type: ignore[arg-type]
 
     def __delete__(self, obj: _obj.ModelObject) -> None:
